@@ -1012,10 +1012,11 @@ def _check_cli_path(ck, drv, s, chains, idx, tmp, rng, CliRunner, nxpimage):
                 sp[4] = bd_load_len(sp, srcs)
             cmds.append(sp)
         case["sections"].append({"uid": u, "hmac": 1, "cmds": cmds, "bd": [st for st, _ in pairs]})
-    if idx == 0:      # one fixed case per run: ranged fill + file load + erase, self-signed chain, nothing random
+    if idx == 0:      # one fixed case per run: ranged fill + file load + erase + encrypt with the byte-swapping key blob, self-signed chain, nothing random
         case["chain"] = 0
         fixed = [("load 0x55.b > 0x2000..0x3000;", ["F", 0x2000, 0x55, 0x1000]), ("load src0 > 0x1000;", ["L", 0x1000, 0, 0, len(srcs[0]), None, ("src", 0)]),
-                 ("erase 0x8000000..0x8010000;", ["E", 0x8000000, 0x10000, 0, 0])]
+                 ("erase 0x8000000..0x8010000;", ["E", 0x8000000, 0x10000, 0, 0]),
+                 ("encrypt (2) { load src0 > 0x8008000; }", ["L", 0x8008000, 0, 0, (len(srcs[0]) + 511) // 512 * 512, None, ("enc", 2, 0)])]
         case["sections"] = [{"uid": 7, "hmac": 1, "cmds": [sp for _, sp in fixed], "bd": [st for st, _ in fixed]}]
         nsec = 1
     ch = chains[case["chain"]]
@@ -1127,18 +1128,14 @@ def _check_cli_path(ck, drv, s, chains, idx, tmp, rng, CliRunner, nxpimage):
             # random by design: 4 bytes inside a wrapped key blob; LOAD padding of `encrypt` with a disabled key blob
             rnd = "kw" in kinds or any(len(c) > 6 and c[6][0] == "enc" and KEYBLOBS[c[6][1]]["end"] & 3 != 3 and c[4] % 16
                                         for sc in case["sections"] for c in sc["cmds"])
-            # open finding C04-convert-drops-options: the YAML schema has no `length` for `fill` and no `byteSwap` for a key blob;
-            # `convert` (CommentedConfig) writes schema properties only.  Predicate from the INPUT alone: the BD file holds a
-            # ranged fill whose length is not the default 4, or an `encrypt` that uses an enabled key blob with byteSwap.
-            lossy = any((c[0] == "F" and c[3] != 4) or
-                        (len(c) > 6 and c[6][0] == "enc" and KEYBLOBS[c[6][1]].get("byteSwap") and KEYBLOBS[c[6][1]]["end"] & 3 == 3)
-                        for sc in case["sections"] for c in sc["cmds"])
+            # (ranged fills and byte-swapping key blobs included: `length` / `byteSwap` are schema properties since dfe695a;
+            #  before that `convert` dropped them - fixed record in known_findings.jsonl)
             weak = f2[0] == "ok" and len(f2[1]) == len(file) and f2[1][:96] == file[:96]
             s.expect(weak, shown, "`nxpimage sb21 convert` + `export` of the converted YAML: no file, or one of different size / header than "
                      "`export` of the BD file", _bdiff(f2, ("ok", file)))
             if weak and not rnd:
                 s.expect(f2[1] == file, shown, "`nxpimage sb21 convert` + `export` of the converted YAML gives a different file than `export` of "
-                         "the BD file", _bdiff(f2, ("ok", file)), finding="C04-convert-drops-options" if lossy else None)
+                         "the BD file", _bdiff(f2, ("ok", file)))
 
 
 def check_kek_len(ck, drv, s, case, chains, BootImageV20, BootImageV21):
